@@ -164,6 +164,33 @@ CHECKS = {
         note="The moment the client control is consulted is observed by wrapping the control instance's _validate inside the checker; limit 5000 itself is only exercised in the thorough tier.",
         section="6/C18",
     ),
+    "C19": dict(
+        engine="E3 gridx + E2 livex",
+        technique="complete enumeration of strategy-name x separator grids and id sources on real orders; references replayed through the real order-stream processing of a second framework instance",
+        text="72+ strategy names (empty, every string of length <=2 over {a,Z,0,-,space,e-acute,CJK,NUL}, lengths 13/32/1000) x all 128 ASCII separators plus non-ASCII and lengths 0/2, through constructor and assignment; "
+        "10k-order creation loops under the real clock, a frozen simulated clock and four threads; an id-source seam with 17/18-digit boundary values; references of four strategies rendered as exchange bets and "
+        "pushed through process_current_orders of a second instance holding 1-3 of them (adoption into the right strategy, update attribution, unknown strategy ignored).",
+        note="uuid1().time uniqueness across threads/processes is observed, otherwise assumed; 19-digit ids and equal strategy names are outside.",
+        section="6/C19",
+    ),
+    "C01": dict(
+        engine="E1 simx",
+        technique="explicit-state BFS with canonical-state dedup per fixed limit configuration; every placement/replacement of every explored history judged against a brute-force worst-case reference with the request counted in full; worst case re-computed after every update",
+        text="8 (thorough 27) limit configurations (order/selection/market in {None, tight, loose}) x all histories of <=3 ticks (<=4 for two tight configurations, line markets separately) over 13 order templates on three selections "
+        "(passive/matched back and lay, over-limit, LOC, MOC), replacements to four prices incl. 1000, cancels, fills, suspension, turn in-play with SP, closure won/lost; only positions reachable through the controls are judged, "
+        "with the acknowledgement discipline enforced by the driver.",
+        note="One-directional (conservative refusals are counted, not flagged); the replace-at-old-price defect is a known finding; prices/sizes outside the menu are not covered.",
+        section="6/C01",
+    ),
+    "C02": dict(
+        engine="E1 simx",
+        technique="explicit-state BFS with canonical-state dedup over request histories (direct and batched in transactions with explicit execute()), every control refusing by a real cause, before/after snapshots; exhaustive packaging cases around the per-call limits",
+        text="Histories of <=4 ticks over ~35 letters: placements (valid, off-ladder, bad size, over exposure, with market version, forced), cancel/partial cancel/update/replace on two orders, forced cancel, transactions with a refused request in the middle, "
+        "the same order twice, explicit execute() positions, requests issued while suspended; configurations with a transaction limit, a custom client control refusing its j-th call and max_live_trade_count 1. Every refused request is compared on a 15-field public snapshot, "
+        "accepted requests are matched one-to-one with the packages reaching the framework, control invocations are counted for forced requests; n requests of each kind in one transaction for n in {0,1,limit-1,limit,limit+1,2*limit+1} x market-version patterns for Betfair/simulated (200/60/60/60) and Betdaq (10/10/50) packages.",
+        note="ExecutionValidation's order-stream-down cause is live-only and not driven; live Betfair refusals are covered through the same Transaction code.",
+        section="6/C02",
+    ),
 }
 
 PENDING_REASON = "check not built yet in this session (work in progress; see DESIGN.md section 8 for the order of work)"
